@@ -182,3 +182,157 @@ func ruleV2ContextualPairing(e *Engine, r *Reporter) {
 		r.Check(ok, fmt.Sprintf("%s | %s #%d", fname(s.top), s.meth, ordinalIn(s.top, s.call)), e.instrPos(s.call), "paired with a contextual-tuple lookup", "a stored-tuple read of the weighted-graph engine has no matching contextual-tuple lookup: contextual tuples are invisible on this path")
 	}
 }
+
+// ruleExistentialSearchLoops: a bool function of the shape `for … { if match { return true } } return false` answers
+// "does any element match".  Inside such a loop a return of anything but the constant true gives up on the remaining
+// elements.  Scope: the contextual-tuple matchers of the combined reader (they decide which contextual tuples a read
+// sees, mirroring the datastore's own filtering) and the breaking-change detector's restriction scans.
+func ruleExistentialSearchLoops(e *Engine, r *Reporter, pkgs []string, floor int) {
+	r.Rule("existential-search-not-aborted", "in a `return true on first match … return false after the loop` scan of the combined reader's tuple matchers, no path inside the loop returns anything but true: a mismatch on one candidate moves on to the next one", floor)
+	for _, fn := range e.Fns {
+		in := false
+		for _, p := range pkgs {
+			if short(pkgOf(fn)) == p || (p == "*" && !isTestSupport(pkgOf(fn))) {
+				in = true
+			}
+		}
+		if !in || fn.Parent() != nil {
+			continue
+		}
+		res := fn.Signature.Results()
+		if res.Len() != 1 || !types.Identical(res.At(0).Type(), types.Typ[types.Bool]) {
+			continue
+		}
+		rets := returnSites(fn)
+		// shape: a constant-false return outside every loop, and a constant-true return inside a loop
+		var trueIn []*ssa.BasicBlock
+		falseAfter := false
+		for _, rs := range rets {
+			if len(rs.Results) != 1 {
+				continue
+			}
+			bv, isC := constBool(rs.Results[0])
+			h := loopOfExit(rs.At.Block())
+			if isC && bv && h != nil {
+				trueIn = append(trueIn, h)
+			}
+			if isC && !bv && h == nil {
+				falseAfter = true
+			}
+		}
+		if len(trueIn) == 0 || !falseAfter {
+			continue
+		}
+		bad := ""
+		for _, rs := range rets {
+			if len(rs.Results) != 1 {
+				continue
+			}
+			h := loopOfExit(rs.At.Block())
+			if h == nil {
+				continue
+			}
+			isSearch := false
+			for _, t := range trueIn {
+				if t == h {
+					isSearch = true
+				}
+			}
+			if !isSearch {
+				continue
+			}
+			if bv, isC := constBool(rs.Results[0]); isC && bv {
+				continue
+			}
+			bad = e.instrPos(rs.At) + " returns " + describe_(rs.Results[0])
+		}
+		r.Check(bad == "", fname(fn)+" | scan continues after a mismatch", e.pos(fn.Pos()), "inside the loop only `return true`", "the any-match scan is aborted inside the loop ("+bad+"): a candidate after the first partial match is never considered")
+	}
+}
+
+// loopOfExit: the innermost loop whose body contains block b, counting blocks that leave the loop by returning
+// (which a natural-loop membership test excludes): b is dominated by a successor of the header that lies in the loop.
+func loopOfExit(b *ssa.BasicBlock) *ssa.BasicBlock {
+	fn := b.Parent()
+	var best *ssa.BasicBlock
+	for _, h := range fn.Blocks {
+		isHeader := false
+		for _, p := range h.Preds {
+			if h.Dominates(p) {
+				isHeader = true
+			}
+		}
+		if !isHeader {
+			continue
+		}
+		for _, s := range h.Succs {
+			if s == h || !blockReaches(s, h) {
+				continue // the exit edge
+			}
+			if s.Dominates(b) || s == b {
+				if best == nil || best.Dominates(h) {
+					best = h
+				}
+			}
+		}
+	}
+	return best
+}
+
+// ruleContextualListNoPositionalAssumption: the per-request contextual-tuple lists handed out by the request's
+// indexes are consulted as a whole (ranged over, binary-searched, passed on); no element is picked by a constant
+// position, which would assume an ordering between contextual tuples that the index does not promise.
+func ruleContextualListNoPositionalAssumption(e *Engine, r *Reporter) {
+	r.Rule("contextual-list-no-positional-assumption", "no code of the weighted-graph engine indexes a list returned by Request.GetContextualTuplesByUserID / ByObjectID with a constant: every contextual tuple of the list is considered", 5)
+	n := 0
+	for _, fn := range e.Fns {
+		if short(pkgOf(fn)) != "internal/check" {
+			continue
+		}
+		ord := 0
+		eachInstr(fn, false, func(in ssa.Instruction) {
+			c, ok := in.(*ssa.Call)
+			if !ok {
+				return
+			}
+			o := calleeObj(c)
+			if o == nil || !strings.HasPrefix(o.Name(), "GetContextualTuplesBy") {
+				return
+			}
+			n++
+			bad := ""
+			seen := map[ssa.Value]bool{}
+			var walk func(v ssa.Value)
+			walk = func(v ssa.Value) {
+				if v == nil || seen[v] || v.Referrers() == nil {
+					return
+				}
+				seen[v] = true
+				for _, ref := range *v.Referrers() {
+					switch x := ref.(type) {
+					case *ssa.Extract:
+						if x.Index == 0 {
+							walk(x)
+						}
+					case *ssa.Phi:
+						walk(x)
+					case *ssa.IndexAddr:
+						if _, isC := constInt(x.Index); isC && x.X == v {
+							bad = e.instrPos(x)
+						}
+					case *ssa.Index:
+						if _, isC := constInt(x.Index); isC && x.X == v {
+							bad = e.instrPos(x)
+						}
+					}
+				}
+			}
+			walk(c)
+			r.Check(bad == "", fmt.Sprintf("%s | %s #%d", fname(topLevel(fn)), o.Name(), ord), e.instrPos(in), "list used as a whole", "an element of the contextual list is taken by constant position ("+bad+"): contextual tuples at other positions are ignored although a stored tuple with the same content would be found")
+			ord++
+		})
+	}
+	if n == 0 {
+		blind("contextual-list-no-positional-assumption: no contextual lookup found in internal/check")
+	}
+}
